@@ -175,10 +175,10 @@ def calc_explicit_padding(input_size, stride, filter_size, pad_before, pad_after
     Based on explicit padding provided in a PAD operation, returns the corresponding hardware padding
     that provides equivalent results.
     """
-    total_padding = needed_total_padding(input_size, stride, filter_size)
-
-    # The bottom/right padding might need downward adjustment depending on stride/input size
-    total_minus_before = total_padding - pad_before
+    # The bottom/right padding might need downward adjustment depending on stride/input size.
+    # The padding needed after the last kernel position is congruent to this value modulo stride
+    # (needed_total_padding() is not used for this since it is clamped at 0 when the filter is smaller than the stride)
+    total_minus_before = filter_size - input_size - pad_before
     output_pad_after = pad_after
     while output_pad_after > 0 and output_pad_after % stride != total_minus_before % stride:
         output_pad_after -= 1
